@@ -26,7 +26,7 @@ ASSUMPTIONS = ["exact truth values from Fraction arithmetic; projective comparis
 
 
 def tmat(c):
-    return Z.int_matrix(c["m"], c["d"] + 1)
+    return Z.class_matrix(c["m"], c["d"] + 1, c.get("mclass", "projective"))
 
 
 def nontrivial(c):
@@ -34,7 +34,7 @@ def nontrivial(c):
         m = tmat(c)
     except Skip:
         return False
-    return not Z.is_affine(m)
+    return c.get("mclass", "projective") != "isometry"
 
 
 # ------------------------------------------------------------------------------------------- join / meet commute
@@ -44,7 +44,7 @@ def jm_case(draw, tier="quick"):
     dim, op, nb = c01.KINDS[kind]
     base = [draw(C.hpoint(dim, 9)) for _ in range(nb)]
     return {"d": dim, "kind": kind, "base": base, "coef": [draw(st.integers(-3, 3)), draw(st.sampled_from([1, -1, 2]))],
-            "scales": [draw(C.scale()) for _ in range(3)], "m": draw(Z.params(9))}
+            "scales": [draw(C.scale()) for _ in range(3)], "m": draw(Z.params(9)), "mclass": draw(st.sampled_from(Z.MCLASSES))}
 
 
 def run_jm(c):
@@ -77,7 +77,7 @@ def inc_case(draw, tier="quick"):
     cfg = draw(st.sampled_from(INC))
     d = 2 if cfg.endswith("2") else 3
     return {"d": d, "cfg": cfg, "on": draw(st.booleans()), "base": [draw(C.hpoint(d, 9)) for _ in range(4)],
-            "coef": [draw(st.integers(-3, 3)) for _ in range(3)], "m": draw(Z.params(9)), "scale": draw(C.scale())}
+            "coef": [draw(st.integers(-3, 3)) for _ in range(3)], "m": draw(Z.params(9)), "mclass": draw(st.sampled_from(Z.MCLASSES)), "scale": draw(C.scale())}
 
 
 def run_inc(c):
@@ -147,7 +147,7 @@ PYTH3 = [(1, 2, 2, 3), (2, 3, 6, 7), (1, 4, 8, 9), (0, 0, 1, 1), (4, 4, -7, 9), 
 @st.composite
 def quad_case(draw, tier="quick"):
     d = draw(st.sampled_from([2, 3]))
-    return {"d": d, "n": draw(Z.params(9)), "m": draw(Z.params(9)), "pt": draw(st.integers(0, 5)), "pt2": draw(st.integers(0, 5)),
+    return {"d": d, "n": draw(Z.params(9)), "m": draw(Z.params(9)), "mclass": draw(st.sampled_from(Z.MCLASSES)), "pt": draw(st.integers(0, 5)), "pt2": draw(st.integers(0, 5)),
             "h": draw(C.ivec(d + 1, 5)), "off": draw(C.hpoint(d, 5)), "cls": draw(st.sampled_from(["Quadric", "Conic"])), "scale": draw(C.scale())}
 
 
@@ -227,7 +227,7 @@ PARS = [(1, 0), (0, 1), (1, 1), (1, -1), (2, 1), (1, 2), (3, -1), (-2, 3), (1, 3
 def cr_case(draw, tier="quick"):
     d = draw(st.sampled_from([2, 2, 3]))
     pars = [list(p) for p in draw(st.permutations(PARS))[:4]]
-    return {"d": d, "A": draw(C.hpoint(d, 6)), "B": draw(C.hpoint(d, 6)), "V": draw(C.hpoint(d, 6)), "pars": pars, "m": draw(Z.params(9)),
+    return {"d": d, "A": draw(C.hpoint(d, 6)), "B": draw(C.hpoint(d, 6)), "V": draw(C.hpoint(d, 6)), "pars": pars, "m": draw(Z.params(9)), "mclass": draw(st.sampled_from(Z.MCLASSES)),
             "form": draw(st.sampled_from(["points", "from_point", "lines"] if d == 2 else ["points"]))}
 
 
@@ -289,7 +289,7 @@ POLY = ["segment", "polygon", "triangle", "rectangle", "simplex", "cuboid", "seg
 def poly_case(draw, tier="quick"):
     d = draw(st.sampled_from([2, 3]))
     kind = draw(st.sampled_from([k for k in POLY if k in (Z.KINDS2 if d == 2 else Z.KINDS3)]))
-    return {"d": d, "kind": kind, "v": draw(Z.params()), "m": draw(Z.params(9))}
+    return {"d": d, "kind": kind, "v": draw(Z.params()), "m": draw(Z.params(9)), "mclass": draw(st.sampled_from(Z.MCLASSES))}
 
 
 def run_poly(c):
